@@ -98,12 +98,12 @@ noncomputable def exPrims : Prims (ZMod 5) where
 
 theorem exRevSpec : RevSpec exPrims.rev64 exPrims.tz 4 := by
   intro j hj
-  interval_cases j <;> simp [exPrims, shr64, u64] <;> decide
+  interval_cases j <;> simp [exPrims, shrU64, toU64] <;> decide
 
 theorem exPrimsFor (size : Nat) : PrimsFor exPrims exEnv 4 size := by
   refine ⟨fun a b => rfl, fun a => rfl, rfl, fun k => ?_, exRevSpec, fun a => rfl, rfl, rfl, fun l => by simp [exEnv], rfl, ?_, fun y => ?_⟩
   · simp [exPrims, exEnv]
-  · simp [exPrims, u64]
+  · simp [exPrims, toU64]
   · by_cases hy : y = 2
     · subst hy; simp [exPrims, zpw]
     · simp [exPrims, hy]
